@@ -204,7 +204,7 @@ GENERATORS.append(_c12_jobs)
 
 # =========================================================================== IAuth core / xquery (C01-C06, C10)
 IAUTH_SRCS = ["src/set.c", "src/bitset.c", "src/common.c", "modules/iauth_misc.c", "src/accumulators.c"]
-IAUTH_STUBS = ["stubs/env_iauth.c", NET, "stubs/printf_model.c"]
+IAUTH_STUBS = ["stubs/env_iauth.c", NET, "stubs/printf_model.c", "stubs/strto_model.c", "stubs/fnmatch_nondet.c"]
 TRAMP = ["stubs/tramp_iauth.c"]
 IAUTH_UNWIND = ["--unwind", "4", "--unwinding-assertions", "--object-bits", "10", "--no-malloc-may-fail"]
 
@@ -215,16 +215,21 @@ IAUTH_RULES = [
     ("irc_pton", r"while \(ii < 8\) switch", 42), ("irc_pton_ip4", r"while \(1\) switch", 18),
     ("irc_ntop", r"for \(max_start", 9), ("irc_ntop", r"for \(pos = 0, ii = 0", 9), ("irc_ntop", r"APPEND\(", 2),
     ("vsnprintf", r"while \(\*fmt\)", 70), ("vsnprintf", r"while \(\*s\)", 81),
-    ("iauth_send", r"COLLECT\(", 70), ("iauth_x_query", r"COLLECT\(", 40), ("strtol", r"", 12), ("strtoul", r"", 12),
+    ("iauth_send", r"COLLECT\(", 70), ("iauth_x_query", r"COLLECT\(", 40), ("st_scan", r"while \(\*p == ' '", 4), ("st_scan", r"while \(st_digit", 22),
 ]
 
 
 def IJ(id, prop, entry, remove, harness="harness/h_iauth_core.c", extra_props=(), **kw):
     """job on the IAuth unit: real function under proof, callees in `remove` replaced by their
     executable contracts (spec/iauth_model.h)"""
+    extra = kw.pop("cbmc", [])
+    base = list(IAUTH_UNWIND)
+    if "--unwind" in extra:          # a job-specific default bound replaces the generic one
+        i = base.index("--unwind"); del base[i:i + 2]
+    kw["cbmc"] = extra
     d = dict(id=id, prop=prop, cls="proof", srcs=IAUTH_SRCS, stubs=IAUTH_STUBS, harness=harness, entry=entry,
              remove_bodies=list(remove), late_stubs=TRAMP, replaced_models=list(remove),
-             checks=["ptr", "ovf", "shift"], cbmc=IAUTH_UNWIND + kw.pop("cbmc", []), timeout=900, cost=2,
+             checks=["ptr", "ovf", "shift"], cbmc=base + kw.pop("cbmc", []), timeout=900, cost=2,
              unwind_rules=IAUTH_RULES + kw.pop("unwind_rules", []), unwind_rules_optional=True)
     d.update(kw)
     d["replace_doc"] = list(remove)
@@ -235,8 +240,8 @@ def IJ(id, prop, entry, remove, harness="harness/h_iauth_core.c", extra_props=()
 
 
 PROPS["C01"] = dict(level="proof", explanation="per-function contracts over the ghost log; histories by induction over INV (DESIGN section 4)")
-PROPS["C02"] = dict(level="proof", explanation="the single acceptance gate is proved equal to the property's condition; hold counters by INV preservation")
-PROPS["C03"] = dict(level="proof", explanation="every state-changing step re-establishes 'nothing decidable is left waiting'")
+PROPS["C02"] = dict(level="model_checking", explanation="the single acceptance gate is proved equal to the property's condition; hold counters by INV preservation")
+PROPS["C03"] = dict(level="model_checking", explanation="every state-changing step re-establishes 'nothing decidable is left waiting'")
 
 GATE_CALLEES = ["iauth_accept", "iauth_soft_done"]
 IJ("C02.check_request", "C02", "h_check_request", GATE_CALLEES, functions=["iauth_check_request"], extra_props=("C01", "C03"))
@@ -271,3 +276,45 @@ PROPS["C04"] = dict(level="proof", explanation="reply routing: validate/routing 
 PROPS["C05"] = dict(level="proof", explanation="verdict content: per reply kind postconditions of the reply handler and of iauth_accept")
 IJ("C03.xq_x_reply", "C03", "h_xq_x_reply", XQ_CALLEES, harness="harness/h_iauth_xq.c", functions=["iauth_xquery_x_reply", "iauth_xquery_x_unlinked", "iauth_xquery_set_account", "iauth_xquery_unref"],
    extra_props=("C02", "C04", "C05"), cbmc=XQ_UNW, assumptions=SET_ASSUME, bound="service table of 3 slots, names of <= 2 bytes, reply text <= 39 bytes", cls="bounded", timeout=1800, cost=20)
+
+PROPS["C06"] = dict(level="proof", explanation="query builder and password shape check by per-function postconditions over the ghost query log; bounded copies in the core handlers")
+IJ("C06.xq_check", "C06", "h_xq_check", XQ_CALLEES, harness="harness/h_iauth_xq.c", functions=["iauth_xquery_check", "iauth_xquery_user_info"],
+   extra_props=("C02", "C03"), cbmc=["--unwind", "9", "--unwindset", "bytes_eq.0:513,strcmp.0:5,strncmp.0:8,model_x_query.0:13,model_x_query.1:12,spec_username.0:13,spec_username.1:11,spec_username.2:11,spec_username.3:11,strncpy.0:13"],
+   assumptions=SET_ASSUME, bound="service table of 2 slots", cls="bounded", timeout=2400, cost=20, defines=["NSRV=2"])
+
+PROPS["C09"] = dict(level="proof", explanation="single formatter iauth_send proved against the line format with the printf model; address text via C12; log channel separation in C18/C09.log")
+IO_UNW = ["--unwind", "14", "--unwindset", "put_str.0:41,put_dec.0:12,put_dec.1:12,h_send.0:13,h_send.1:41,h_send.2:14,h_send.3:201,h_send.4:1201,fputs.0:1100,iauth_send.0:5,memset.0:600"]
+IJ("C09.send", "C09", "h_send", SETM, harness="harness/h_iauth_io.c", stubs=IAUTH_STUBS + ["stubs/stdout_model.c"], functions=["iauth_send"],
+   cbmc=IO_UNW, cls="bounded", bound="string arguments of <= 11 bytes; every format string used by the daemon", timeout=1800, cost=10)
+IJ("C04.routing_roundtrip", "C04", "h_routing_roundtrip", SETM, harness="harness/h_iauth_io.c", stubs=IAUTH_STUBS + ["stubs/stdout_model.c"],
+   functions=["iauth_routing", "iauth_validate_request"], cbmc=IO_UNW, assumptions=SET_ASSUME + ["S2 strtol/strtoul are CBMC's library models"], timeout=1800, cost=10)
+IJ("C04.validate_any", "C04", "h_validate_any", SETM, harness="harness/h_iauth_io.c", stubs=IAUTH_STUBS + ["stubs/stdout_model.c"],
+   functions=["iauth_validate_request"], cbmc=IO_UNW, cls="bounded", bound="tag text of <= 19 bytes", assumptions=SET_ASSUME, timeout=1800, cost=5)
+
+PROPS["C08"] = dict(level="model_checking", explanation="tokenizer + dispatcher of iauth_read for every line up to the stated length; handlers by precondition; chunking/libevent outside (S3)")
+PARSERS = ["parse_new_client", "parse_disconnect", "parse_hostname", "parse_no_hostname", "parse_password", "parse_user_info", "parse_ident",
+           "parse_nick", "parse_hurry_up", "parse_error", "parse_server_info", "parse_x_reply", "parse_x_unlinked", "parse_info_request"]
+
+
+def _c08_jobs(tier, seed):
+    n = 12 if tier == "quick" else 20
+    d = dict(id="C08.read.len%d" % n, prop="C08", cls="bounded", bound="every input line of at most %d bytes" % n,
+             srcs=IAUTH_SRCS, stubs=IAUTH_STUBS + ["stubs/stdout_model.c"], harness="harness/h_iauth_io.c", entry="h_read",
+             remove_bodies=PARSERS + SETM, late_stubs=TRAMP, checks=["ptr", "ovf", "shift"], defines=["LINE_MAX_V=%d" % n],
+             cbmc=["--unwind", str(n + 3), "--unwinding-assertions", "--object-bits", "10", "--no-malloc-may-fail",
+                   "--unwindset", "model_dispatch.0:17,iauth_read.0:3"],
+             unwind_rules=IAUTH_RULES, unwind_rules_optional=True, functions=["iauth_read"],
+             assumptions=SET_ASSUME + ["S3 evbuffer_read/evbuffer_readln by contract: a fresh NUL-terminated line without newline, any content"],
+             timeout=3000, cost=30)
+    return [d]
+
+
+GENERATORS.append(_c08_jobs)
+
+PROPS["C11"] = dict(level="proof", explanation="rule criteria conjunction, class/username effects, first-match scan; glob semantics are libc's (uninterpreted); rule compilation order by C19 + conf_object_cmp")
+CL_STUBS = [x for x in IAUTH_STUBS if "fnmatch" not in x]
+IJ("C11.rule_check", "C11", "h_rule_check", ["iauth_xreply_ok", "iauth_trust_username", "iauth_send", "iauth_check_request"] + SETM, harness="harness/h_iauth_class.c", stubs=CL_STUBS,
+   functions=["iauth_class_rule_check"], cbmc=["--unwind", "72", "--unwindset", "irc_check_mask.0:9,spec_prefix_equal.0:130,memset.0:200,strlen.0:72,memcpy.0:72"],
+   cls="bounded", bound="class / rule names up to 69 bytes; glob results uninterpreted", assumptions=["fnmatch is libc's: its result is an arbitrary input of the proof (S2)"], timeout=1800, cost=10)
+IJ("C11.class_assign", "C11", "h_class_assign", ["iauth_class_rule_check", "iauth_send"] + SETM, harness="harness/h_iauth_class.c", stubs=CL_STUBS,
+   functions=["iauth_class_assign", "iauth_class_foreach_rule"], cbmc=["--unwind", "6"], cls="bounded", bound="up to 4 rules", timeout=900, cost=3)
